@@ -398,6 +398,7 @@ class Interp:
             return self.ev(e.orelse)
         c = t.flat().deps_all()
         fr = self.fr
+        self._extent_coincidence(e.test, t)
         fr.ctrl.append(fr.ctrl[-1] | c)
         fr.guards.append((M.norm_text(e.test), True, e.test, False))
         try:
@@ -410,6 +411,17 @@ class Interp:
         r = join(a, b).with_ctrl(c)
         r.term = mk_term("ifexp", t.term, a.term, b.term)
         return r
+
+    def _extent_coincidence(self, test_node, t):
+        """a branch (not an assertion) steered by `extent of axis X == extent of axis Y` for two unrelated named axes: the reading of
+        an argument then depends on a numeric coincidence (n_samples == n_channels)"""
+        c = t.tag("cmp")
+        if c is None or c[0] not in ("Eq", "NotEq"):
+            return
+        dl, dr = c[1].tag("dim"), c[2].tag("dim")
+        if dl and dr and len(dl) == 1 and len(dr) == 1 and dl != dr and not dl[0].startswith("#") and not dr[0].startswith("#") \
+                and {dl[0], dr[0]} != {"F", "Fr"}:
+            self.emit("extent_coincidence", test_node, axes=(dl[0], dr[0]))
 
     def truth(self, v):
         """True / False / None(unknown)"""
@@ -669,8 +681,10 @@ class Interp:
             if v is not None:
                 ctx.selfenv[attr] = v
                 return v
+        # a field the specification does not declare (e.g. a cache attribute introduced later): nothing is known about it,
+        # not even that it is set — `if self._cache is None:` explores both arms
         v = Val(data={"self." + attr}, term=("self", attr), fresh=("ALIAS", frozenset({"self." + attr})),
-                tags={"notnone": True})
+                tags={"undeclared_field": True})
         return v
 
     def e_Subscript(self, e):
@@ -1050,6 +1064,7 @@ class Interp:
             fr.guards.pop()
             return st
         c = t.flat().deps_all()
+        self._extent_coincidence(s.test, t)
         fr.ctrl.append(fr.ctrl[-1] | c)
         env0, self0 = dict(fr.env), dict(self.ctx.selfenv)
         fr.guards.append((txt, True, s.test, False, t.flat().data | t.flat().shp))
@@ -1378,6 +1393,9 @@ class Interp:
                     and cmp_[1].term == base.term and v.tag("extconst") == "numpy.nan":
                 nb.tags["pos_or_nan"] = True        # x[x <= 0] = nan : only positive multiples survive
                 nb.sign = "POS"
+            if base.tag("zero_init") and (idx.tag("row_mask") is not None or idx.tag("allany") is not None or idx.tag("boolarr")
+                                          or (idx.tag("cmp") is not None and idx.tag("kind") != "bool")) and not fr.loops:
+                nb.tags["filled_through_mask"] = M.norm_text(t)       # only the selected rows are written: the others keep the initial zeros
             if isinstance(t.value, ast.Name) and t.value.id in fr.param_live:
                 fr.param_mutated.add(t.value.id)
             nb.tags.pop("raw_quotient_by", None)         # some entries were overwritten: no longer the raw quotient
